@@ -235,3 +235,41 @@ Proof.
   - cbn in E4. injection E4 as <-. split; [exact G4|]. by exists c6.
   - cbn in E6. injection E6 as <-. split; [exact G6|]. by exists c4.
 Qed.
+
+(* ---- C09, end to end, scrape: for ANY store state, the one datagram answering an accepted UDP scrape decodes
+   with the BEP 15 reference decoder to action 2, the request's transaction id and one (seeders, completed = 0,
+   leechers) triple per requested infohash IN REQUEST ORDER (repeats included), read from the swarms of the
+   requester's family *)
+Lemma handle_udp_scrape_txid mac k skew now o ip packet txid af ihs :
+  UdpParse.handle_udp mac k skew now o ip packet = UdpParse.UScrape txid af ihs →
+  txid = sub 12 16 packet ∧ length txid = 4%nat.
+Proof.
+  unfold UdpParse.handle_udp, ConnID.dispatch_request.
+  destruct (Nat.ltb (length packet) 16) eqn:El; [done|]. apply Nat.ltb_ge in El.
+  destruct (negb _ && negb _); [done|].
+  destruct (_ =? UdpWrite.act_connect).
+  { destruct (negb _); [done|]. destruct (ConnID.ip_family ip); done. }
+  destruct (_ || _ || _); [|done].
+  destruct (_ =? UdpWrite.act_scrape).
+  - destruct (UdpParse.parse_scrape o packet); try done. destruct (ConnID.ip_family ip); [|done].
+    intros [= <- _ _]. split; [done|]. apply sub_length; lia.
+  - destruct (UdpParse.parse_announce _ o (Some ip) packet) as [[r' q']|e|]; done.
+Qed.
+
+Theorem udp_scrape_end_to_end_step mac (t : tcfg) (u : ucfg) sp clock ip packet txid af ihs :
+  UdpParse.handle_udp mac (uc_key u) (uc_skew u) clock (uc_opts u) ip packet = UdpParse.UScrape txid af ihs →
+  ∃ d, udp_step spec_if mac t u sp clock ip packet = Some (sp, [d]) ∧
+       UdpWrite.bep15_decode_scrape d =
+         Some (2, sub 12 16 packet,
+               map (λ ih, let '(c, i) := st_scrape spec_if ih (v6_of af) sp in
+                          {| UdpWrite.dt_seeders := c; UdpWrite.dt_completed := 0; UdpWrite.dt_leechers := i |}) ihs).
+Proof.
+  intros E. unfold udp_step. rewrite E. destruct (handle_udp_scrape_txid _ _ _ _ _ _ _ _ _ _ E) as [Htx Hl].
+  eexists. split; [reflexivity|]. unfold udp_scrape_datagram.
+  rewrite udp_scrape_decodes; [|exact Hl|].
+  - rewrite Htx. f_equal. f_equal. rewrite map_map. apply map_ext. intros ih. unfold v6_of.
+    cbn [st_scrape spec_if]. destruct af; by destruct (sm_scrape _ sp).
+  - apply Forall_forall. intros s Hin. apply elem_of_list_In, in_map_iff in Hin as (ih & <- & _).
+    cbn [st_scrape spec_if]. destruct (sm_scrape _ sp) as [c i]. unfold scrape_ok, u32. cbn.
+    repeat split; try apply wrap_range; lia.
+Qed.
